@@ -276,8 +276,25 @@ def rejection_obligations() -> list:
     return obs
 
 
+def table_obligations() -> list:
+    """The relation tables the checks read: REVERSE_RELATIONS is an involution over known relation names (a relation
+    and its reverse name each other), decided on the real table."""
+    import wn.constants as K
+    R = K.REVERSE_RELATIONS
+    known = set(K.SENSE_RELATIONS) | set(K.SYNSET_RELATIONS) | set(K.SENSE_SYNSET_RELATIONS)
+    cm = dict(prop=PROP, kind='static', functions=('wn.constants.REVERSE_RELATIONS',), source='wn/constants.py')
+    bad = sorted(k for k, v in R.items() if R.get(v) != k)
+    unknown = sorted(x for x in set(R) | set(R.values()) if x not in known)
+    return [Obligation('wn.constants.REVERSE_RELATIONS:involution', decided=not bad,
+                       detail=f'{len(R)} pairs; not reciprocal: {bad[:6]}', **cm),
+            Obligation('wn.constants.REVERSE_RELATIONS:known-names', decided=not unknown,
+                       detail=f'names outside the relation inventories: {unknown[:6]}', **cm)]
+
+
 def run(sess: Session):
     sess.assume('A-ENGINE', 'A-PY-COUNTER')
+    for ob in table_obligations():
+        sess.check(ob)
     sess.trust('vc/pyvc', 'collections.Counter: count(x) > 1 iff x occurs at two positions (A-PY-COUNTER)')
     for item in check_obligations():
         if isinstance(item, tuple):
